@@ -113,6 +113,18 @@ def run_case(case):
 
         def accept(contexts):
             res = []
+            if 'results' in decided:
+                # second association of the same entity: the peer answers the other way round
+                # (what it accepted before it refuses now; everything else it accepts)
+                was = dict((p_, r_) for p_, r_, _ in decided['results'])
+                for pcid, ab, tss in contexts:
+                    if was.get(pcid, 1) == 0:
+                        res.append((pcid, 3, tss[0]))
+                    else:
+                        res.append((pcid, 0, tss[-1]))
+                decided['results2'] = res
+                decided['contexts2'] = contexts
+                return res
             for j, (pcid, ab, tss) in enumerate(contexts):
                 if pattern is not None:
                     code = pattern[j] if j < len(pattern) else 0
@@ -173,8 +185,17 @@ def run_case(case):
             def user2():
                 try:
                     with ae.request_association({'aet': 'REMOTE_AE', 'address': ADDR[0],
-                                                 'port': ADDR[1]}):
+                                                 'port': ADDR[1]}) as assoc2:
                         out2['ok'] = True
+                        look2 = {}
+                        for c in configured2:
+                            try:
+                                look2[c] = assoc2.get_scu(c)()
+                            except exceptions.ClassNotSupportedError:
+                                look2[c] = 'not-supported'
+                            except Exception as e:  # pylint: disable=broad-except
+                                look2[c] = 'raised:%s' % type(e).__name__
+                        out2['look'] = look2
                 except Exception as e:  # pylint: disable=broad-except
                     out2['exc'] = e
             world.spawn(user2, 'user2')
@@ -191,6 +212,31 @@ def run_case(case):
                         bool(miss), bool(set(abss2) - set(configured2))),
                       'configured now %d classes, second request proposes %d; missing %r' % (
                           len(configured2), len(abss2), miss[:5]))
+                elif 'look' in out2 and 'results2' in decided:
+                    # usable contexts of THIS association = what the peer accepted this time
+                    ab2 = dict((c_[0], c_[1]) for c_ in p2.rq['contexts'])
+                    acc2 = {}
+                    for pcid, r, t_ in decided['results2']:
+                        if r == 0:
+                            acc2.setdefault(ab2.get(pcid), []).append((pcid, t_))
+                    scu2 = set(as_scu)
+                    for kind, classes in case['calls2']:
+                        if kind == 'scu' or not need_scp:
+                            scu2.update(_uid(c_) for c_ in classes)
+                    for c, got in out2['look'].items():
+                        ok = isinstance(got, tuple) and got[0] == 'service'
+                        if c in acc2 and c in scu2:
+                            if not ok:
+                                v('second-association-lookup-fails-for-accepted-class',
+                                  'class %s got %r' % (c, got))
+                            elif (got[2].id, str(got[2].supported_ts)) not in acc2[c]:
+                                v('second-association-lookup-bound-to-earlier-association',
+                                  'class %s bound to %r, accepted now %r' % (
+                                      c, tuple(got[2]), acc2[c]))
+                        elif c not in acc2 and got != 'not-supported':
+                            v('second-association-lookup-succeeds-for-refused-class',
+                              'class %s was refused in this association (accepted in the '
+                              'previous one), lookup gave %r' % (c, got))
         peer = world.peers[0] if world.peers else None
         proposable = len(configured) <= 128
         dead = [x for x in world.sim.tasks if x.role == 'dul' and x.exc is not None]
